@@ -560,6 +560,16 @@ func (x *Exec) runScheduler(main *Goroutine) {
 			x.onDeadlock()
 			break
 		}
+		// time passes (ticker fires) only when nothing else can run
+		var busy []*Goroutine
+		for _, g := range en {
+			if g.waitDesc != "tick" {
+				busy = append(busy, g)
+			}
+		}
+		if len(busy) > 0 {
+			en = busy
+		}
 		var g *Goroutine
 		// a preempted goroutine is never rescheduled first
 		if len(en) > 1 {
